@@ -651,6 +651,45 @@ def r09_6(ctx, repo):
                     cont = U(ce)
                     if 'self.' in cont:
                         tests.append((c, cont))
+            # the caller's dictionary {displayed name: new name} is looked
+            # up with *displayed* names
+            if params:
+                dname = params[0]
+                for sub in ast.walk(fn):
+                    if not (isinstance(sub, ast.Subscript) and U(
+                            sub.value) == dname and isinstance(
+                            sub.ctx, ast.Load) and isinstance(
+                            sub.slice, ast.Name)):
+                        continue
+                    key = sub.slice.id
+                    # loop variable over the myokit names?
+                    loops_ = [l for l in ast.walk(fn) if isinstance(l, ast.For)
+                              and any(x is sub for x in ast.walk(l))]
+                    raw = None
+                    for l in loops_:
+                        tg = [x.id for x in ast.walk(l.target)
+                              if isinstance(x, ast.Name)]
+                        if key in tg and U(l.iter).replace(' ', '') in (
+                                'self._%s_names' % kind,
+                                'self._%s_name_map' % kind,
+                                'self._%s_name_map.keys()' % kind):
+                            rebound = any(
+                                isinstance(a, ast.Assign) and any(
+                                    U(t) == key for t in a.targets)
+                                for a in ast.walk(l))
+                            if not rebound:
+                                raw = l
+                    if raw is not None:
+                        n += 1
+                        ctx.violation(
+                            rule, repo.loc(sub, cls, m), construct,
+                            'lookup by myokit name',
+                            '`%s` looks the caller\'s dictionary up with '
+                            '`%s`, a myokit name (loop over `%s`); callers '
+                            'address parameters by the names currently '
+                            'displayed, so a second renaming of the same '
+                            'entry is silently ignored' % (
+                                U(sub), key, U(raw.iter)))
             for c, cont in tests:
                 n += 1
                 where = repo.loc(c, cls, m)
